@@ -927,10 +927,10 @@ Proof.
   set (l := r_loop (reqs s r)).
   assert (l < c_loops c) as Hl.
   { apply Hlt. intros E. rewrite E in Hu. discriminate. }
-  assert (forall K, (l_pc (lp s l) = LReady /\ cur_op (lp s l) <> None) \/ (exists r, l_pc (lp s l) = LCancel2 r) \/
+  assert ((l_pc (lp s l) = LReady /\ cur_op (lp s l) <> None) \/ (exists r, l_pc (lp s l) = LCancel2 r) \/
              (exists r, l_pc (lp s l) = LCancel3 r) \/ l_pc (lp s l) = LWorkDone \/
-             (l_pc (lp s l) = LDrain /\ l_pending (lp s l) = true) -> K = K -> exists t, step c s t 0 <> None) as Hloop.
-  { intros _ K _. exists l. rewrite step_loop by exact Hl. apply lstep_enabled; assumption. }
+             (l_pc (lp s l) = LDrain /\ l_pending (lp s l) = true) -> exists t, step c s t 0 <> None) as Hloop.
+  { intros K. exists l. rewrite step_loop by exact Hl. apply lstep_enabled; assumption. }
   destruct (Hok l) as (K1 & K2 & K3 & K4 & K5).
   destruct (r_st (reqs s r)) as [| |w| | | |st] eqn:Est; try discriminate.
   - (* Queued *)
@@ -950,7 +950,7 @@ Proof.
         destruct (countw_pos_exists _ _ _ Hc) as (w & Hw & Hsl).
         apply (Hworker w Hw). intros E. rewrite E in Hsl. discriminate.
       * destruct x; discriminate.
-    + destruct (Hp5 Ewp) as (w & Hw & K). apply (Hworker w Hw K).
+    + destruct (Hp5 eq_refl) as (w & Hw & K). apply (Hworker w Hw K).
   - (* Running w *)
     destruct (proj1 (a_running c s HA r w) Est) as [b Hwk].
     assert (w < c_n c) as Hw.
@@ -960,9 +960,10 @@ Proof.
   - (* Finished *)
     assert (In r (l_wq (lp s l) ++ l_local (lp s l))) as Hin.
     { apply (a_loopq c s HA). split; [reflexivity | left; exact Est]. }
-    apply (Hloop True); [|reflexivity].
-    destruct (l_pc (lp s l)) as [| r0 | r0 | | |] eqn:Epc; eauto 6.
-    + left. split; [reflexivity | apply K1; reflexivity].
+    apply Hloop.
+    destruct (l_pc (lp s l)) as [| r0 | r0 | | |] eqn:Epc;
+      [left; split; [reflexivity | apply K1; reflexivity] | right; left; eauto | right; right; left; eauto
+      | right; right; right; left; reflexivity | | ].
     + right. right. right. right. split; [reflexivity|].
       destruct K3 as [Hd _]; [right; left; reflexivity|].
       apply in_app_or in Hin. rewrite (a_local c s HA l Hd) in Hin.
@@ -975,13 +976,14 @@ Proof.
         - unfold unf. fold l. rewrite Nat.eqb_refl, Est. reflexivity. }
       rewrite <- (Hact l) in Hc. lia.
   - (* Limbo *)
-    apply (Hloop True); [|reflexivity]. right. right. left. exists r. apply (a_limbo c s HA r Est).
+    apply Hloop. right. right. left. exists r. apply (a_limbo c s HA r Est).
   - (* Cancelled *)
     assert (In r (l_wq (lp s l) ++ l_local (lp s l))) as Hin.
     { apply (a_loopq c s HA). split; [reflexivity | right; exact Est]. }
-    apply (Hloop True); [|reflexivity].
-    destruct (l_pc (lp s l)) as [| r0 | r0 | | |] eqn:Epc; eauto 6.
-    + left. split; [reflexivity | apply K1; reflexivity].
+    apply Hloop.
+    destruct (l_pc (lp s l)) as [| r0 | r0 | | |] eqn:Epc;
+      [left; split; [reflexivity | apply K1; reflexivity] | right; left; eauto | right; right; left; eauto
+      | right; right; right; left; reflexivity | | ].
     + right. right. right. right. split; [reflexivity|].
       destruct K3 as [Hd _]; [right; left; reflexivity|].
       apply in_app_or in Hin. rewrite (a_local c s HA l Hd) in Hin.
